@@ -559,6 +559,17 @@ impl Iterator for Lexer {
                     symbol_str.push(current);
                     match self.peek(1) {
                         Some(next) if Self::is_symbol_item(next) => self.consume_char(),
+                        // The decimal point of a number (`.float 3.14`)
+                        Some('.')
+                            if symbol_str
+                                .trim_start_matches('-')
+                                .chars()
+                                .all(|c| c.is_ascii_digit())
+                                && symbol_str.ends_with(|c: char| c.is_ascii_digit())
+                                && self.peek(2).is_some_and(|c| c.is_ascii_digit()) =>
+                        {
+                            self.consume_char();
+                        }
                         _ => break,
                     }
                 }
